@@ -793,6 +793,7 @@ bool Annotator::assignAllIds()
 {
     auto model = pFunc()->mModel.lock();
     if (model != nullptr) {
+        pFunc()->update();
         size_t initialSize = pFunc()->idCount();
         pFunc()->doSetAllAutomaticIds();
         return pFunc()->idCount() > initialSize;
@@ -820,6 +821,8 @@ bool Annotator::assignIds(CellmlElementType type)
         pFunc()->addIssueNoModel();
         return false;
     }
+
+    pFunc()->update();
 
     size_t initialSize = pFunc()->idCount();
 
